@@ -162,11 +162,11 @@ func (r *Run) Main() int {
 	fns := r.eng.FunctionsFor(r.prop)
 	if r.prop == "C08" {
 		r.eng.sweepMode = true
-		fns = r.eng.LockingFunctions()
+		fns = unionFuncs(r.eng.LockingFunctions(), fns)
 	}
 	if r.prop == "C09" {
 		r.eng.sweepMode = true
-		fns = r.eng.GuardedAccessFunctions("C09")
+		fns = unionFuncs(r.eng.GuardedAccessFunctions("C09"), fns)
 	}
 	r.buildAndSolve(fns)
 	if !r.debug {
@@ -204,6 +204,20 @@ func (r *Run) Main() int {
 		return 1
 	}
 	return 0
+}
+
+// unionFuncs: the functions a sweep selects from SSA plus those whose contract carries a clause for the property.
+func unionFuncs(a, b []*ssa.Function) []*ssa.Function {
+	seen := map[*ssa.Function]bool{}
+	var out []*ssa.Function
+	for _, f := range append(append([]*ssa.Function{}, a...), b...) {
+		if !seen[f] {
+			seen[f] = true
+			out = append(out, f)
+		}
+	}
+	sort.Slice(out, func(i, j int) bool { return out[i].String() < out[j].String() })
+	return out
 }
 
 func indent(s string) string { return "      " + strings.ReplaceAll(s, "\n", "\n      ") }
